@@ -240,16 +240,35 @@ func RandomC11(r *rand.Rand, n int) []*Case {
 // ---------------------------------------------------------------- C12
 
 // richTypes: a small random universe of struct types that need helper functions.
+// methodTypes: types that bring their OWN Equal / Compare / Hash / DeepCopy methods, with pointer
+// receivers (Mp) and value receivers (Mv). As fields of the argument types they make method dispatch part
+// of what must be equal up to renaming: the plugins must find the methods whatever the prefixes are.
+const methodTypes = `type Mp struct{ K int }
+
+func (m *Mp) Equal(that *Mp) bool { return m.K == that.K }
+func (m *Mp) Compare(that *Mp) int { return m.K - that.K }
+func (m *Mp) Hash() uint64        { return uint64(m.K) }
+func (m *Mp) DeepCopy(to *Mp)     { *to = *m }
+
+type Mv struct{ K int }
+
+func (m Mv) Equal(that Mv) bool { return m.K == that.K }
+func (m Mv) Compare(that Mv) int { return m.K - that.K }
+func (m Mv) Hash() uint64       { return uint64(m.K) }
+func (m Mv) DeepCopy(to *Mv)    { *to = m }`
+
 func richTypes(r *rand.Rand) (decls []string, structs []string) {
 	n := 2 + r.Intn(3)
 	names := []string{"In", "Mid", "Out", "Item", "Inner"}[:n]
 	fieldTypes := func(i int) []string {
-		ft := []string{"int", "string", "bool", "[]int", "[]string", "map[string]int", "*int", "[2]int", "float64"}
+		ft := []string{"int", "string", "bool", "[]int", "[]string", "map[string]int", "*int", "[2]int", "float64",
+			"Mp", "*Mp", "Mv", "*Mv", "[]Mp", "[]*Mv", "map[string]Mv"}
 		for j := 0; j < i; j++ {
 			ft = append(ft, names[j], "*"+names[j], "[]"+names[j], "[]*"+names[j], "map[string]"+names[j], "map[int]*"+names[j])
 		}
 		return ft
 	}
+	decls = append(decls, methodTypes)
 	for i, nm := range names {
 		ft := fieldTypes(i)
 		nf := 1 + r.Intn(4)
@@ -257,6 +276,11 @@ func richTypes(r *rand.Rand) (decls []string, structs []string) {
 		fmt.Fprintf(&sb, "type %s struct {\n", nm)
 		for f := 0; f < nf; f++ {
 			fmt.Fprintf(&sb, "\tF%d %s\n", f, ft[r.Intn(len(ft))])
+		}
+		if i == 0 {
+			// every package has fields of the method-bearing types, by value and by pointer
+			mt := [][2]string{{"Mp", "*Mv"}, {"*Mp", "Mv"}, {"Mp", "Mv"}, {"*Mp", "*Mv"}}[r.Intn(4)]
+			fmt.Fprintf(&sb, "\tP %s\n\tV %s\n", mt[0], mt[1])
 		}
 		sb.WriteString("}")
 		decls = append(decls, sb.String())
